@@ -381,6 +381,13 @@ func ruleR13(c *Ctx) {
 		case parent.Name == "filter":
 			props := []string{"C04"}
 			for _, yc := range ycalls {
+				// the yield may sit in a visitor literal handed to a leaf walker: the predicate test
+				// is then in that literal
+				g, guards := g, guards
+				if hu := c.unitHolding(u, yc); hu != u {
+					g = m.cfgOf(hu)
+					guards = guardsOf(info, g)
+				}
 				yb, _ := blockOf(g, yc)
 				ok := false
 				for _, gd := range guards {
@@ -999,4 +1006,20 @@ func (c *Ctx) returnsFilter(cu, from *FuncUnit, depth int) bool {
 		}
 	}
 	return len(rets) > 0
+}
+
+// unitHolding: the innermost function literal inside u that contains n (u itself if none).
+func (c *Ctx) unitHolding(u *FuncUnit, n ast.Node) *FuncUnit {
+	best := u
+	for _, cu := range c.m.Units {
+		if cu.Lit == nil || cu == u {
+			continue
+		}
+		if cu.Lit.Pos() <= n.Pos() && n.End() <= cu.Lit.End() && cu.Lit.Pos() >= u.Body.Pos() && cu.Lit.End() <= u.Body.End() {
+			if best == u || cu.Lit.Pos() >= best.Lit.Pos() {
+				best = cu
+			}
+		}
+	}
+	return best
 }
